@@ -984,6 +984,39 @@ def oracle_c13(tables, seed, tier, deep):
                   {"names": len(names), "extra": len(extra)}, [{"name": "user.address.zip", "pseudonym": H("e0.%d" % extra.index("user.address.zip"))}])
 
 
+def many_names(tier, deep):
+    viol = []
+    # many DISTINCT names in one process, then the first ones again: a pseudonym may not depend on how many other names were
+    # seen in between (memo tables, rings, pools); every pseudonym is also checked against the independent computation
+    nn = 30000 if (tier == "thorough" or deep) else 3000
+    def name_line(i):
+        return '{"c":"COMMAND","msg":"Slow query","attr":{"ns":"dbn%d.coln%d","command":{"find":"coln%d","filter":{"fldn%d":1,"sub%d.leaf%d":2},"$db":"dbn%d"},"planSummary":"IXSCAN { fldn%d: 1 }"}}' % (i, i, i, i, i, i, i, i)
+    c = Cfg(w=True, eager=("dbn",))
+    order = list(range(nn)) + list(range(0, 120)) + [nn // 2 + k for k in range(60)]
+    ops = [("q%d" % j, ["line", c.s(), hx(name_line(i))]) for j, i in enumerate(order)]
+    res = go_exec(ops, timeout=1800)
+    first = {}
+    bad = 0
+    for j, i in enumerate(order):
+        r = res.get("q%d" % j, "noanswer")
+        if i not in first:
+            first[i] = r
+            if j % 97 == 0 or i < 120:
+                t = out_text(r)
+                o = parse_json(t) if t else None
+                want = py_hash_name("REDACTED", "dbn%d.coln%d" % (i, i))
+                if o is None or get_path(o, ("attr", "ns")) != want or get_path(o, ("attr", "command", "filter")).keys() != [py_hash_name("REDACTED", "fldn%d" % i), py_hash_name("REDACTED", "sub%d.leaf%d" % (i, i))]:
+                    bad += 1
+                    if bad <= 2:
+                        viol.append({"site": "visible:many-names", "detail": "after %d distinct names in one process the line for name #%d does not carry the independent pseudonyms" % (j, i), "cfg": c.s(), "cli_flags": c.cli(), "input": name_line(i), "output": t or r[:200]})
+        elif r != first[i]:
+            bad += 1
+            if bad <= 2:
+                viol.append({"site": "visible:name-reappears", "detail": "name #%d got one pseudonym at first and another one after %d further lines with other names in the same process" % (i, j), "cfg": c.s(), "cli_flags": c.cli(),
+                             "input": name_line(i), "output": (out_text(r) or r)[:400], "first_output": (out_text(first[i]) or first[i])[:400]})
+    return viol, len(order)
+
+
 def oracle_c13_visible(tables, seed, tier, deep):
     """pseudonyms as they become visible in --redactNamespaces / --redactFieldNames output: every name, incl. names that already look
     like a pseudonym (start with '<replacement>_'), must come out as the independent pseudonym of the name"""
@@ -1044,7 +1077,9 @@ def oracle_c13_visible(tables, seed, tier, deep):
             filt = get_path(o, ("attr", "command", "filter"))
             if isinstance(filt, Obj) and filt.keys() != [py_hash_name(rp, nm)]:
                 viol.append({"site": "visible:filter-key", "detail": "field %r renamed to %r, expected %r" % (nm, filt.keys(), py_hash_name(rp, nm)), "cfg": c.s(), "cli_flags": c.cli(), "input": cs.text, "output": t})
-    return viol, len(pairs) + len(plans)
+    mv, mn = many_names(tier, deep)
+    viol += mv
+    return viol, len(pairs) + len(plans) + mn
 
 
 def with_visible(fn):
@@ -1062,6 +1097,20 @@ def with_visible(fn):
 
 
 ORACLES["C13"] = with_visible(oracle_c13)
+
+
+def with_many_names(fn):
+    def wrapped(tables, seed, tier, deep):
+        r = fn(tables, seed, tier, deep)
+        v, n = many_names(tier, deep)
+        if v:
+            r["violations"] = result(r["violations"] + v, 0, 0, "", {}, [])["violations"]
+            r["stats"]["summary"]["violating_sites"] = len(r["violations"])
+        r["stats"]["evaluations"] += n
+        r["stats"]["summary"]["evaluations"] = r["stats"]["evaluations"]
+        r["stats"]["rule"] += "; plus thousands of distinct namespaces / field names in one process followed by the first ones again (same pseudonym every time, equal to the independent computation)"
+        return r
+    return wrapped
 
 
 # ------------------------------------------------------------------------------------------- C06 / C08 (streams)
@@ -2044,7 +2093,7 @@ def oracle_c12(tables, seed, tier, deep):
                   dist, [pairs[0][0].text[:400]] if pairs else [])
 
 
-ORACLES["C12"] = oracle_c12
+ORACLES["C12"] = with_many_names(oracle_c12)
 
 
 # ------------------------------------------------------------------------------------------- C14
